@@ -2,7 +2,9 @@ package main
 
 import (
 	"encoding/binary"
+	"errors"
 	"fmt"
+	"os"
 	"net/netip"
 	"sort"
 	"strconv"
@@ -11,6 +13,7 @@ import (
 	"time"
 
 	"github.com/netsampler/goflow2/v2/decoders/netflow"
+	"github.com/netsampler/goflow2/v2/metrics"
 	"github.com/netsampler/goflow2/v2/producer"
 	protoproducer "github.com/netsampler/goflow2/v2/producer/proto"
 	"github.com/netsampler/goflow2/v2/utils"
@@ -76,6 +79,111 @@ func (p *parkTS) AddTemplate(version uint16, obsDomainId uint32, templateId uint
 	return err
 }
 
+// v9 options template `tid` with one 4-byte option
+func v9OptionsTemplate(tid uint16) []byte {
+	b := v9Header(1, 7)
+	set := []byte{0, 1, 0, 16, byte(tid >> 8), byte(tid), 0, 0, 0, 4, 0, 34, 0, 4, 0, 0}
+	return append(b, set...)
+}
+
+// stepTS: an inner template store in which every call made by one chosen goroutine is a schedule point (it parks
+// after the call has taken effect). Used to probe the atomicity of whatever wraps it (the Prometheus template
+// system of cmd/goflow2): between any two steps of an announcement another worker's lookup must not fail.
+type stepTS struct {
+	netflow.NetFlowTemplateSystem
+	ctl   *raceCtl
+	owner *int
+}
+
+func (p *stepTS) step() {
+	if p.owner != nil && *p.owner == goid() {
+		p.ctl.park()
+	}
+}
+
+func (p *stepTS) AddTemplate(version uint16, obsDomainId uint32, templateId uint16, template interface{}) error {
+	err := p.NetFlowTemplateSystem.AddTemplate(version, obsDomainId, templateId, template)
+	p.step()
+	return err
+}
+
+func (p *stepTS) RemoveTemplate(version uint16, obsDomainId uint32, templateId uint16) (interface{}, error) {
+	t, err := p.NetFlowTemplateSystem.RemoveTemplate(version, obsDomainId, templateId)
+	p.step()
+	return t, err
+}
+
+func (p *stepTS) GetTemplate(version uint16, obsDomainId uint32, templateId uint16) (interface{}, error) {
+	t, err := p.NetFlowTemplateSystem.GetTemplate(version, obsDomainId, templateId)
+	p.step()
+	return t, err
+}
+
+// race tplatomic <mode> -: the exporter has announced template 256 (mode o2d: as an options template, d2o: as a data
+// template, same: as a data template); worker A re-announces it (as the other kind / the same kind) on the
+// Prometheus-instrumented template system; at every step of A inside the inner store, worker B processes a data set
+// of template 256. B must never see "template not found": a template for the key is known at every moment.
+func opTplAtomic(mode string) []string {
+	ctl := &raceCtl{parked: make(chan *gate, 4)}
+	src := netip.MustParseAddrPort("10.1.2.3:4000")
+	cfg, _ := (*protoproducer.ProducerConfig)(nil).Compile()
+	prod, _ := protoproducer.CreateProtoProducer(cfg, protoproducer.CreateSamplingSystem)
+	capf := &captureFormat{}
+	owner := -1
+	pipe := utils.NewNetFlowPipe(&utils.PipeConfig{Format: capf, Producer: prod,
+		NetFlowTemplater: func(key string) netflow.NetFlowTemplateSystem {
+			return metrics.NewPromTemplateSystem(key, &stepTS{NetFlowTemplateSystem: netflow.CreateTemplateSystem(), ctl: ctl, owner: &owner})
+		}})
+	first, second := v9OptionsTemplate(256), v9Template(256)
+	switch mode {
+	case "o2d":
+	case "d2o":
+		first, second = v9Template(256), v9OptionsTemplate(256)
+	case "same":
+		first = v9Template(256)
+	default:
+		return []string{"bad-op"}
+	}
+	if err := pipe.DecodeFlow(&utils.Message{Src: src, Payload: first, Received: time.Unix(1, 0)}); err != nil {
+		return []string{"res err # prologue: " + err.Error()}
+	}
+	done := make(chan error, 1)
+	ready := make(chan struct{})
+	go func() {
+		owner = goid()
+		close(ready)
+		done <- pipe.DecodeFlow(&utils.Message{Src: src, Payload: second, Received: time.Unix(2, 0)})
+	}()
+	<-ready
+	probes, missing := 0, 0
+	probe := func() {
+		probes++
+		err := pipe.DecodeFlow(&utils.Message{Src: src, Payload: v9Data(256), Received: time.Unix(3, 0)})
+		if err != nil && errors.Is(err, netflow.ErrorTemplateNotFound) {
+			missing++
+		}
+	}
+	for {
+		select {
+		case g := <-ctl.parked:
+			probe()
+			close(g.release)
+			continue
+		case <-done:
+		case <-time.After(3 * time.Second):
+			return []string{"res timeout"}
+		}
+		break
+	}
+	probe()
+	lost := ""
+	if missing > 0 {
+		lost = "1"
+	}
+	fmt.Fprintf(os.Stderr, "tplatomic %s: probes=%d missing=%d\n", mode, probes, missing)
+	return []string{fmt.Sprintf("res ok lost=[%s]", lost)}
+}
+
 func v9Data(tid uint16) []byte {
 	b := v9Header(1, 7)
 	set := []byte{byte(tid >> 8), byte(tid), 0, 8, 10, 0, 0, 1}
@@ -89,6 +197,9 @@ func v9Data(tid uint16) []byte {
 func opRace(st *state, args []string) []string {
 	if len(args) != 3 {
 		return []string{"bad-op"}
+	}
+	if args[0] == "tplatomic" {
+		return opTplAtomic(args[1])
 	}
 	n, err := strconv.Atoi(args[1])
 	if err != nil || n < 1 || n > 8 {
